@@ -1715,6 +1715,12 @@ def check_prev(F):
         if names != {"Comment"}:
             only_comments = False
     uncond = [a for a in writes if not any(a is x for w in loops for x in nodes(w))]
+    # the step comes first and the loop over comments is the last thing that moves the cursor: the context handed back rests
+    # on a token that is not a comment (stepping back *after* the loop can land on one)
+    order = [id(x) for x in nodes(body)]
+    step_first = len(uncond) == 1 and all(order.index(id(uncond[0])) < order.index(id(w)) for w in loops)
+    if ok_writes and only_comments and len(uncond) == 1 and len(loops) <= 1 and not step_first:
+        return False, "Context::prev steps back after its loop over comments: the token it lands on can be a comment (a comment line after a `loop` statement)"
     if ok_writes and only_comments and len(uncond) == 1 and len(loops) <= 1:
         return True, "prev() steps back one token and then only over comments"
     return False, "Context::prev has another shape (writes ok=%s, loops over comments only=%s)" % (ok_writes, only_comments)
